@@ -216,6 +216,50 @@ def file_paths(ctx, sources):
                           {'kind': 'lextrace', 'src': list(src), 'chunking': how})
 
 
+def listtokens_cli(ctx, sources):
+    """`p8tool listtokens`: the numbered entries are exactly the tokens that are not spaces, comments or line ends (whose
+    kinds TraceLex judges above), numbered consecutively from 0"""
+    import io
+    import tempfile
+    from pico8 import tool, util
+    from pico8.lua import lexer
+    d = tempfile.mkdtemp(prefix='c07l_', dir=ctx.tmp)
+    for name, src in sources:
+        if any(c >= 128 or (c < 32 and c not in (9, 10)) for c in src) or not src.endswith(b'\n') or re.search(rb'(^|\n)__\w+__\n', src):
+            continue
+        fp = os.path.join(d, 'c.p8')
+        with open(fp, 'wb') as f:
+            f.write(b'pico-8 cartridge // http://www.pico-8.com\nversion 8\n__lua__\n' + src + b'__gfx__\n')
+        toks, err = lexref.lex_impl([src])
+        if toks is None:
+            continue
+        nsig = sum(1 for t in toks if not isinstance(t, (lexer.TokSpace, lexer.TokComment, lexer.TokNewline)))
+        buf = io.StringIO()
+        old = util._write_stream
+        util._write_stream = buf
+        try:
+            rc = tool.main(['listtokens', fp])
+        except SystemExit as e:
+            rc = e.code
+        except Exception as e:  # noqa
+            rc = 'exception %s' % type(e).__name__
+        finally:
+            util._write_stream = old
+        nums = [int(x) for x in re.findall(r'<(\d+):', buf.getvalue())]
+        ctx.evaluations += 1
+        # (token texts may themselves contain "<12:": only the count of leading-numbered entries in order is compared)
+        seq = []
+        for n in nums:
+            if n == len(seq):
+                seq.append(n)
+        if rc in (0, None) and len(seq) == nsig:
+            ctx.nontrivial += 1
+            ctx.traces += 1
+        else:
+            ctx.violation('listtokens/%s' % ('fails' if rc not in (0, None) else 'numbering'), 'p8tool listtokens for %s (rc %s) numbers %d tokens, the source has %d tokens that are not spaces, comments or line ends' % (
+                name, rc, len(seq), nsig), {'kind': 'listtokens', 'src': list(src)})
+
+
 def run(ctx):
     rnd = random.Random(ctx.seed)
     ctx.rule = ('GenLex: every concatenation of <= N pieces over a class alphabet / the token spelling classes; '
@@ -250,6 +294,7 @@ def run(ctx):
     run_traces(ctx, srcs + extra + gen)
     ws = [('ws-probe', b's = [[ab  \ncd\t\n]]  \nx = 1\t \n-- c  \n  y = "q"   \n')]
     file_paths(ctx, ws + srcs + gen[:(60 if ctx.quick else 600)])
+    listtokens_cli(ctx, ws + srcs + gen[:(20 if ctx.quick else 200)])
     ctx.sample({'gen': 'GenLex', 'example': 'a>>>b', 'expected': [['name', 2], ['sym', 5], ['name', 6]]})
 
 
